@@ -103,6 +103,15 @@ Theorem C05_gmrf_doc_cov_spectral : forall (R : realFieldType) (n : nat) (P U : 
 Proof. exact gmrf_doc_cov_spectral. Qed.
 Print Assumptions C05_gmrf_doc_cov_spectral.
 
+(* the variance of the draws along an eigen-direction as a quadratic form (what the cells gmrf-eps-law pin to 1e-11 relative, four
+   orders of magnitude below the distance to the documented variance) *)
+Theorem C05_gmrf_eps_rayleigh : forall (R : realFieldType) (n m : nat) (D : 'M[R]_(m, n)) (T : 'M[R]_(n, m)) (r prec eps lam : R) (v : 'cV[R]_n),
+  let P := D^T *m D in let Pe := P + eps%:M in let C := T *m T^T in
+  0 < eps -> 0 < prec -> 0 <= lam -> r * r = prec -> (r *: Pe) *m T = D^T ->
+  P *m v = lam *: v -> v^T *m C *m v = eps_var prec eps lam *: (v^T *m v).
+Proof. exact gmrf_eps_rayleigh. Qed.
+Print Assumptions C05_gmrf_eps_rayleigh.
+
 (* the distance between the documented covariance and the covariance of the draws, in one statement *)
 Theorem C05_gmrf_eps_distance : forall (R : realFieldType) (n m : nat) (D : 'M[R]_(m, n)) (T : 'M[R]_(n, m)) (U : 'M[R]_n) (l : 'rV[R]_n) (r prec eps : R),
   let P := D^T *m D in let Pe := P + eps%:M in let C := T *m T^T in
@@ -133,6 +142,15 @@ Proof.
 move=> R n eps v He D T; rewrite /D /T trmx1 !mulmx1 scale1r mul1mx mulr1 scale1r; split=> //; split=> //.
 have N : 1 + eps != 0 by rewrite gt_eqF // addr_gt0 // ltr01.
 by rewrite mul_mx_scalar scalerDr !scale_scalar_mx -(raddfD (scalar_mx_additive R n)) /= -mulrDr mulVf.
+Qed.
+
+(* the spectral hypotheses are satisfiable as well: D = I, U = I, all eigenvalues 1 *)
+Example C05_gmrf_spectral_example : forall (R : realFieldType) (n : nat),
+  let D : 'M[R]_n := 1%:M in let U : 'M[R]_n := 1%:M in let l : 'rV[R]_n := const_mx 1 in
+  U *m U^T = 1%:M /\ (D^T *m D) *m U = U *m diag_mx l /\ (forall j, 0 <= l 0 j).
+Proof.
+move=> R n D U l; rewrite /D /U /l trmx1 !mulmx1 mul1mx diag_const_mx; split=> //; split=> // j.
+by rewrite mxE ler01.
 Qed.
 
 (* what a spectral (DFT-type) sampler must do: pair each weight with the eigenvalue of the SAME basis vector *)
